@@ -2,11 +2,12 @@
 # tools/store_seed.sh <property> <k> "<what I ran>" : copy a confirmed seed from its worktree into /verif/seeded/<property>-<k>/
 P=$1; K=$2; RAN=$3; S=/tmp/wt_$P/_seed; D=/verif/seeded/$P-$K
 mkdir -p $D; cp $S/patch$K.diff $D/patch.diff; cp $S/demo$K.rs $D/demo.rs
-python3 - <<PY
-import json
-m=json.load(open('$S/meta$K.json'))
-m['confirmed_by_me']='$RAN'
-m['base_commit']='6255501 (pinned snapshot, before any fix: commit)'
-json.dump(m,open('$D/meta.json','w'),indent=1)
+BASE=$(git -C /tmp/wt_$P rev-parse --short HEAD)
+python3 - "$S/meta$K.json" "$D/meta.json" "$RAN" "$BASE" <<'PY'
+import json, sys
+m = json.load(open(sys.argv[1]))
+m['confirmed_by_me'] = sys.argv[3]
+m['base_commit'] = sys.argv[4] + ' (the /repo commit the scratch worktree was taken from)'
+json.dump(m, open(sys.argv[2], 'w'), indent=1)
 PY
-ls $D
+ls $D | tr '\n' ' '
